@@ -48,6 +48,7 @@ where
     pub j: u32,
     pub now: i32,
     pub next_id: i32,
+    pub qcount: u64,
 }
 
 fn chunks_json<R>(t: &SegExpTree<R, i32, SV>) -> String {
@@ -122,7 +123,7 @@ where
             _ => {}
         }
         tr.line(&format!("{}{},{}", desc, extra, fields));
-        SegSession { t, tr, lo, hi, j, now: 0, next_id: 1 }
+        SegSession { t, tr, lo, hi, j, now: 0, next_id: 1, qcount: 0 }
     }
 
     pub fn insert(&mut self, a: i64, b: i64, e: i32) -> i32 {
@@ -149,9 +150,22 @@ where
         let cap_items = self.next_id as i64 + 8;
         let t = self.t.as_mut().unwrap();
         let mut got: Vec<i64> = vec![];
+        // a completely consumed iterator is drained in one of three ways, in turn: by `next()` alone, by
+        // one `next()` followed by `for_each` (which goes through `Iterator::fold`), by `for_each` alone
+        self.qcount += 1;
+        let style = if take < 0 && arm == 0 { self.qcount % 3 } else { 0 };
         let o = observe(arm, || {
-            let it = t.iter_by_range(SegRange { min: R::from_i64(a), max: R::from_i64(b) }, time);
+            let mut it = t.iter_by_range(SegRange { min: R::from_i64(a), max: R::from_i64(b) }, time);
             let mut n = 0i64;
+            if style >= 1 {
+                if style == 1 {
+                    if let Some(v) = it.next() {
+                        got.push(v.id as i64);
+                    }
+                }
+                it.for_each(|v| got.push(v.id as i64));
+                return;
+            }
             for v in it {
                 if take >= 0 && n >= take {
                     break;
@@ -225,6 +239,25 @@ where
         });
         let f = out_fields(&o);
         self.tr.line(&format!("\"ev\":\"op\",{},\"n\":{},\"nd\":{},\"res\":{},{}", desc, n, seen.len(), list_json(&first), f));
+    }
+
+    /// n complete queries over [a, b] at the times t0, t0 + 1, .., t0 + n - 1, observed as one call; logged:
+    /// how many of them yielded anything
+    pub fn ticks(&mut self, a: i64, b: i64, t0: i32, n: i32) {
+        let desc = format!("\"op\":\"ticks\",\"a\":{},\"b\":{},\"t\":{},\"n\":{},\"raw\":\"{}:{}\"", self.off(a), self.off(b), t0, n, a, b);
+        self.tr.pre(&format!("{},\"out\":\"aborted\"", desc));
+        let t = self.t.as_mut().unwrap();
+        let mut nonempty = 0i64;
+        let o = observe(0, || {
+            for i in 0..n {
+                if t.iter_by_range(SegRange { min: R::from_i64(a), max: R::from_i64(b) }, t0 + i).count() > 0 {
+                    nonempty += 1;
+                }
+            }
+        });
+        self.now = t0 + n - 1;
+        let f = out_fields(&o);
+        self.tr.line(&format!("\"ev\":\"op\",{},\"nonempty\":{},{}", desc, nonempty, f));
     }
 
     /// n values with the same range and expiration, inserted by one observed call (no chunk dump)
@@ -434,6 +467,45 @@ where
             j += 1;
         }
     }
+    // 5: a long clock - exactly 2^8 and exactly 2^16 changes of the query time between two queries of one
+    // point whose value expires in between (a wrapping "already purged at this time" stamp comes round again)
+    if bulk > 5000 {
+        let mut s: SegSession<R> = SegSession::open(&mut *tr, lo, hi);
+        let (a, z) = bucket(3 % nb);
+        let (a2, z2) = bucket((nb - 1).max(4) % nb);
+        s.insert(a, z, 200_000);
+        s.insert(a, a, 5);
+        s.query(a, a, 1, -1, 0, true);
+        s.ticks(a2, z2, 2, 255);
+        s.query(a, a, 257, -1, 0, true);
+        s.insert(a, a, 300);
+        s.query(a, a, 258, -1, 0, true);
+        s.ticks(a2, z2, 259, 65_535);
+        s.query(a, a, 65_794, -1, 0, true);
+        s.query(lo, hi, 65_795, -1, 0, true);
+    }
+    // 6: consecutive insertions with the same first bucket and the same span whose last buckets differ
+    if w > 1 {
+        let mut s: SegSession<R> = SegSession::open(&mut *tr, lo, hi);
+        for sb in [0, 5 % nb, (nb - 3).max(0)] {
+            for k in 1..=3i64 {
+                if sb + k >= nb {
+                    continue;
+                }
+                let (a, _) = bucket(sb);
+                let (_, z) = bucket(sb + k - 1);
+                for d in 0..3i64 {
+                    if z + d <= hi {
+                        s.insert(a + d, z + d, 50);
+                    }
+                }
+                let (na, nz) = bucket(sb + k);
+                s.query(na, nz, 1, -1, 0, true);
+                s.query(a, a, 1, -1, 0, false);
+            }
+        }
+        s.query(lo, hi, 2, -1, 0, true);
+    }
     // 4
     if bulk > 0 {
         let mut s: SegSession<R> = SegSession::open(&mut *tr, lo, hi);
@@ -611,6 +683,11 @@ where
             Some("bulk") => {
                 if let Some((a, b)) = fstr(line, "raw").as_deref().and_then(pair) {
                     s.bulk(a, b, fnum(line, "e").unwrap_or(0) as i32, fnum(line, "n").unwrap_or(0) as i32);
+                }
+            }
+            Some("ticks") => {
+                if let Some((a, b)) = fstr(line, "raw").as_deref().and_then(pair) {
+                    s.ticks(a, b, fnum(line, "t").unwrap_or(0) as i32, fnum(line, "n").unwrap_or(0) as i32);
                 }
             }
             Some("queryn") => {
